@@ -28,6 +28,7 @@ published one-step algorithm off the surface (< 1e-6 m within 100 km, < 2 mm up 
 import Midgard.Proofs.GeoReal
 import Midgard.Proofs.GeoAccuracy
 import Midgard.Proofs.GeoThirdOrder
+import Midgard.Proofs.GeoBoundFinal
 import Midgard.Proofs.SourceTie
 import Midgard.Model.Geodetic
 import Midgard.Model.Rotation
@@ -654,6 +655,39 @@ theorem halley_third_order_partial (E : Ellipsoid ℝ) (he1 : E.e2 ≤ 1) (p z :
   exact this
 
 
+/-- every registered ellipsoid is inside the parameter range of `near_surface_accuracy` -/
+theorem registered_ellipsoids_in_range :
+    ∀ r ∈ Midgard.Generated.Ellipsoids.table,
+      6371000 ≤ r.2.a ∧ r.2.a ≤ 6378140 ∧ 0 ≤ r.2.e2 ∧ r.2.e2 ≤ 67 / 10000 := by
+  decide +kernel
+
+/-- **the accuracy clause near the surface, proved**: for every ellipsoid with `6 371 000 ≤ a ≤ 6 378 140 m` and
+`0 ≤ e² ≤ 0.0067` (all registered ones: `registered_ellipsoids_in_range`), every geodetic latitude with
+`s = sin φ ≥ 0`, `c = cos φ > 0` and every height `|h| ≤ 100 km`, the tangential offset `R` of the one-step algorithm at
+the point `p = (N + h)c`, `z = (N(1 − e²) + h)s` is below `1e-6 m` — and `|R|` *is* the distance between
+`llh2trs (trs2llh v)` and `v` (`roundtrip_error_partial`; southern hemisphere by `roundtrip_error_south_partial`, the
+equatorial plane and the pole branch are exact).  Exact real arithmetic; IEEE rounding stays measured.
+Still NOT proved: the far clause (`< 2 mm` up to 50 000 km; measured 1.1 mm). -/
+theorem near_surface_accuracy (E : Ellipsoid ℝ) (ha : 6371000 ≤ E.a) (ha' : E.a ≤ 6378140) (he0 : 0 ≤ E.e2)
+    (he : E.e2 ≤ 0.0067) (s c h : ℝ) (hsc : s ^ 2 + c ^ 2 = 1) (hc : 0 < c) (hs : 0 ≤ s) (hh : |h| ≤ 100000) :
+    |tangentialOffset E ((E.a / Real.sqrt (1 - E.e2 * s ^ 2) + h) * c)
+        ((E.a / Real.sqrt (1 - E.e2 * s ^ 2) * (1 - E.e2) + h) * s)| < 1e-6 :=
+  tangentialOffset_within_100km E ha ha' he0 he s c h hsc hc hs hh
+
+/-- the same in the scheme's own normalised quantities: `|A − q| ≤ 0.0162` (`A = √(q²(p/a)² + (z/a)²)`, `q = √(1 − e²)`) -/
+theorem near_surface_accuracy_box (E : Ellipsoid ℝ) (ha : 0 < E.a) (ha' : E.a ≤ 6378140) (he0 : 0 ≤ E.e2) (he : E.e2 ≤ 0.0067)
+    (p z : ℝ) (hp : 0 < p) (hz : 0 ≤ z)
+    (hnear : |Real.sqrt (Real.sqrt (1 - E.e2) * (p / E.a) * (Real.sqrt (1 - E.e2) * (p / E.a)) + z / E.a * (z / E.a))
+              - Real.sqrt (1 - E.e2)| ≤ 0.0162) :
+    |tangentialOffset E p z| < 1e-6 :=
+  tangentialOffset_near E ha ha' he0 he p z hp hz hnear
+
+/-- the hypotheses are satisfiable (GRS80-like numbers, φ = 0.6435…: s = 3/5, c = 4/5, h = 50 km) -/
+example : ((3:ℝ) / 5) ^ 2 + (4 / 5) ^ 2 = 1 ∧ |(50000 : ℝ)| ≤ 100000 := by
+  constructor
+  · norm_num
+  · rw [abs_of_pos (by norm_num)]; norm_num
+
 /-- the hypotheses are satisfiable: the unit sphere, the point (1, 0, 1) -/
 example : Mild (⟨1, none⟩ : Ellipsoid ℝ) ∧
     ((⟨1, none⟩ : Ellipsoid ℝ).e2 * (1 - (⟨1, none⟩ : Ellipsoid ℝ).f) * 1) ^ 2
@@ -1003,3 +1037,6 @@ end Midgard.Props.C05
 #print axioms Midgard.Props.C05.delta_empty_from_forwards
 #print axioms Midgard.Props.C05.halley_third_order_partial
 #print axioms Midgard.Props.C05.explicit_ellipsoid_decides
+#print axioms Midgard.Props.C05.registered_ellipsoids_in_range
+#print axioms Midgard.Props.C05.near_surface_accuracy
+#print axioms Midgard.Props.C05.near_surface_accuracy_box
